@@ -31,6 +31,7 @@ def plan(prop):
 
 
 API = ('MddApiTrace.tla', 'MddApiTrace.cfg', 'api')
+STORE = ('MddStoreTrace.tla', 'MddStoreTrace.cfg', 'store')
 
 BASE_ASSUMPTIONS = [
     'TLC 1.8.0 and the CommunityModules Json/IOUtils overrides are trusted',
@@ -85,6 +86,8 @@ def run(prop, tier, seed, t0):
     if others:
         log('[note] %d observations tagged for other properties (reported by their own checks): %s'
             % (len(others), sorted(set((o[0], o[1]) for o in others))[:8]))
+        for o in others[:3]:
+            log('       e.g. %s %s %s line %d' % (o[0], o[1], o[2], o[3]))
 
     # MODEL-tagged records mean the specification could not interpret a line:
     # that is a failure of the machinery, not a verdict
@@ -381,4 +384,623 @@ def plan_c04(tier, seed, rng):
              'cleared after every call; CROSS for all pairs over <2,2>; plus seeded random pairs on shapes up to 4 variables; operands are re-evaluated '
              'after every call (tag HELD); non-trivial = result table not constant',
         exhaustive=(tier == 'thorough'),
+    )
+
+
+# ---------------------------------------------------------------------------
+# helpers shared by the function-level plans
+# ---------------------------------------------------------------------------
+def points_of(sizes, rel):
+    n = 1
+    for s in sizes:
+        n *= s * s if rel else s
+    return n
+
+
+def rank_to_assignment(r, sizes, rel):
+    ds = []
+    for s in sizes:
+        ds += [s, s] if rel else [s]
+    digs = []
+    x = r
+    for s in ds:
+        digs.append(x % s)
+        x //= s
+    K = len(sizes)
+    if rel:
+        return [digs[2 * k + 1] for k in range(K)] + [digs[2 * k] for k in range(K)]
+    return digs
+
+
+def table_coll(S, e, f, kind, table, sizes):
+    """emit a 'coll' command that builds exactly the given table (list of
+    script values by rank) in edge e of forest f"""
+    sr, rng, lab = KINDS[kind]
+    rel = sr == 'R'
+    dflt = gen.default_of(kind)
+    if lab in ('EP', 'IX'):
+        mts = [(v, rank_to_assignment(r, sizes, rel)) for r, v in enumerate(table) if v != INF]
+        S.coll(e, f, 'MIN', INF, mts)
+    elif rng == 'B':
+        mts = [(1, rank_to_assignment(r, sizes, rel)) for r, v in enumerate(table) if v]
+        S.coll(e, f, 'MAX', 0, mts)
+    else:
+        lo = min(table)
+        mts = [(v, rank_to_assignment(r, sizes, rel)) for r, v in enumerate(table) if v != lo]
+        S.coll(e, f, 'MAX', lo, mts)
+
+
+def rand_table(rng, kind, npts, pal=None, p_default=0.4):
+    pal = pal or (gen.palette(kind) + ([INF] if KINDS[kind][2] in ('EP', 'IX') else []))
+    d = gen.default_of(kind)
+    if KINDS[kind][1] == 'B':
+        dens = rng.choice([0.1, 0.3, 0.5, 0.8])
+        return [1 if rng.random() < dens else 0 for _ in range(npts)]
+    return [d if rng.random() < p_default else rng.choice(pal) for _ in range(npts)]
+
+
+ARITH = ['PLUS', 'MINUS', 'MULTIPLY', 'DIVIDE', 'MODULO', 'MAXIMUM', 'MINIMUM', 'DIST_MIN']
+CMP = ['EQUAL', 'NOT_EQUAL', 'LESS_THAN', 'LESS_THAN_EQUAL', 'GREATER_THAN', 'GREATER_THAN_EQUAL']
+USER = ['U_ABS', 'U_NEG', 'U_EVEN', 'U_INC3', 'U_SQ', 'U_ISPOS']
+
+ARITH_PAL = {
+    'mti_s': [-7, -1, 1, 2, 3, 20000], 'mti_r': [-7, -1, 1, 2, 3, 20000],
+    'mtr_s': [-160, -8, 8, 64, 240], 'mtr_r': [-160, -8, 8, 64, 240],
+    'evp_s': [0, 1, 2, 5, 100, -3, INF], 'evp_r': [0, 1, 2, 5, 100, -3, INF],
+    'evt_r': [-128, 32, 64, 256, 8],
+}
+
+
+def arith_ops_for(kind):
+    sr, rng, lab = KINDS[kind]
+    ops = list(ARITH)
+    if lab != 'MT':
+        ops.remove('DIST_MIN')
+    if rng == 'R':
+        ops.remove('MODULO')
+    return ops
+
+
+# ---------------------------------------------------------------------------
+# C05: element-wise arithmetic, comparisons, ranges
+# ---------------------------------------------------------------------------
+def c05_script(rng, sizes, kind, rules, cases, nonzero_div=False):
+    """rules: (ra, rb, rr) reduction rules of the operand / result forests (all
+    of kind `kind`; distinct forests even when the rule is the same).
+    cases: list of (tableA, tableB, op)"""
+    S = Script()
+    d = S.dom(sizes)
+    sr = KINDS[kind][0]
+    fa = S.forest(d, kind, rules[0])
+    fb = S.forest(d, kind, rules[1])
+    fr = S.forest(d, kind, rules[2])
+    fbool = S.forest(d, 'mtb_r' if sr == 'R' else 'mtb_s', rng.choice(gen.rules_of('mtb_r' if sr == 'R' else 'mtb_s')))
+    fint = S.forest(d, 'mti_r' if sr == 'R' else 'mti_s', rng.choice(gen.rules_of('mti_r' if sr == 'R' else 'mti_s')))
+    freal = S.forest(d, 'mtr_r' if sr == 'R' else 'mtr_s', rng.choice(gen.rules_of('mtr_r' if sr == 'R' else 'mtr_s')))
+    ea, eb, er = S.new(fa), S.new(fb), S.new(fr)
+    ea2 = S.new(fa)
+    cres = {'B': S.new(fbool), 'I': S.new(fint), 'R': S.new(freal)}
+    for (A, B, op) in cases:
+        table_coll(S, ea, fa, kind, A, sizes)
+        if op in USER or op in ('DIST_INC', 'RNG'):
+            if op == 'RNG':
+                S.add('rng MAX %d' % ea)
+                S.add('rng MIN %d' % ea)
+            elif op in ('U_EVEN', 'U_ISPOS'):
+                S.add('un %s %d %d' % (op, cres['B'], ea))
+            else:
+                # result in the same forest kind: use the b-forest edge of kind `kind`
+                S.add('un %s %d %d' % (op, er, ea))
+            S.add('obs %d' % ea)
+            continue
+        if B is None:
+            # x op x on the same edge
+            S.add('bin %s %d %d %d' % (op, er if op in ARITH else cres[rng.choice('BIR')], ea, ea))
+            S.add('obs %d' % ea)
+            continue
+        table_coll(S, eb, fb, kind, B, sizes)
+        if op in ARITH:
+            S.add('bin %s %d %d %d' % (op, er, ea, eb))
+        else:
+            S.add('bin %s %d %d %d' % (op, cres[rng.choice('BIR')], ea, eb))
+        S.add('obs %d %d' % (ea, eb))
+    return S.text()
+
+
+@plan('C05')
+def plan_c05(tier, seed, rng):
+    scripts = []
+    n = 0
+    kinds = ['mti_s', 'mti_r', 'mtr_s', 'mtr_r', 'evp_s', 'evp_r', 'evt_r']
+    for kind in kinds:
+        rel = KINDS[kind][0] == 'R'
+        pal = ARITH_PAL[kind]
+        d = gen.default_of(kind)
+        vals = sorted(set(pal + [d]), key=str)
+        ops = arith_ops_for(kind) + CMP
+        rules = gen.rules_of(kind)
+        # exhaustive part: every function over the smallest domain with values
+        # from the palette (sets: <2>, 2 points; relations: <2>, 4 points,
+        # sampled), every pair, every operation
+        import itertools
+        if not rel:
+            fns = [list(t) for t in itertools.product(vals, repeat=2)]
+            pairs = [(a, b) for a in fns for b in fns]
+        else:
+            fns = [rand_table(rng, kind, 4, pal) for _ in range(40)]
+            pairs = [(rng.choice(fns), rng.choice(fns)) for _ in range(400 if tier == 'thorough' else 120)]
+        combos = [(a, b, c) for a in rules for b in rules for c in rules]
+        rng.shuffle(combos)
+        use = combos if tier == 'thorough' else combos[:2]
+        for rl in use:
+            if tier != 'thorough' and len(pairs) > 200:
+                sub = rng.sample(pairs, 200)
+            else:
+                sub = pairs
+            cases = []
+            for (a, b) in sub:
+                for op in (ops if tier == 'thorough' or rel else rng.sample(ops, 5)):
+                    cases.append((a, b, op))
+            rng.shuffle(cases)
+            # split into several executions so that one crash does not hide the rest
+            chunk = 700
+            for i in range(0, len(cases), chunk):
+                scripts.append(('t%03d' % n, c05_script(rng, [2], kind, rl, cases[i:i + chunk])))
+                n += 1
+        # random larger shapes; structured patterns that trigger the shortcut
+        # predicates (x op x, constant operands, zero / one / infinity operands)
+        reps = 8 if tier == 'thorough' else 2
+        for _ in range(reps):
+            sizes = gen.rand_sizes(rng, 9 if rel else 48, maxvars=(2 if rel else 3), maxsize=4)
+            npts = points_of(sizes, rel)
+            cases = []
+            for _ in range(50 if tier == 'thorough' else 25):
+                A = rand_table(rng, kind, npts, pal)
+                x = rng.random()
+                if x < 0.12:
+                    B = None
+                elif x < 0.3:
+                    B = [rng.choice(vals)] * npts
+                elif x < 0.4:
+                    A = [rng.choice(vals)] * npts
+                    B = rand_table(rng, kind, npts, pal)
+                else:
+                    B = rand_table(rng, kind, npts, pal)
+                cases.append((A, B, rng.choice(ops)))
+                if KINDS[kind][2] != 'ET' and rng.random() < 0.3:
+                    cases.append((A, None, rng.choice(USER)))
+                if kind.startswith('mti') and rng.random() < 0.2:
+                    cases.append((A, None, 'DIST_INC'))
+                if KINDS[kind][2] == 'MT' and rng.random() < 0.3:
+                    cases.append((A, None, 'RNG'))
+            rl = (rng.choice(rules), rng.choice(rules), rng.choice(rules))
+            scripts.append(('r%03d' % n, c05_script(rng, sizes, kind, rl, cases)))
+            n += 1
+    return dict(
+        scripts=scripts, validators=[API], tags={'C05', 'HELD'},
+        rule='per forest kind (MT integer / MT real / EV+ / EV* ; sets and relations): every pair of functions over <2> with values from a '
+             'palette spanning negative, zero, positive, large and (EV+) infinite values (relations: seeded sample of pairs over <2>), every '
+             'arithmetic operation the factory builds for the kind and the six comparisons (result in a boolean, integer or real MT forest), '
+             'operand/result forests = three distinct forests with reduction rules drawn from the kind\'s rules (all rule triples in thorough); '
+             'plus seeded random functions on shapes up to 3 variables with structured operands (x op x, constants, zero/one/infinity), '
+             'user-defined unary maps, DIST_INC, MAX_RANGE/MIN_RANGE; operands re-read after every call; non-trivial = result not constant, or an error outcome',
+        exhaustive=False,
+    )
+
+
+# ---------------------------------------------------------------------------
+# C10: copy between forests
+# ---------------------------------------------------------------------------
+COPY_PAL = {
+    'mtb_s': None, 'mtb_r': None,
+    'mti_s': [-7, -1, 1, 2, 3, 1000000], 'mti_r': [-7, -1, 1, 2, 3, 1000000],
+    'mtr_s': [-160, -128, 8, 64, 240], 'mtr_r': [-160, -128, 8, 64, 240],
+    'evp_s': [0, 1, 2, 5, 100, -3, INF], 'evp_r': [0, 1, 2, 5, 100, -3, INF],
+    'evt_r': [-128, 32, 64, 256, 8],
+}
+
+
+def c10_script(rng, sizes, src, srule, dst, drule, tables):
+    S = Script()
+    d = S.dom(sizes)
+    fs = S.forest(d, src, srule, sto=rng.choice('EFS'))
+    fd = S.forest(d, dst, drule, sto=rng.choice('EFS'))
+    a, back, r = S.new(fs), S.new(fs), S.new(fd)
+    keep = S.new(fs)
+    for T in tables:
+        table_coll(S, a, fs, src, T, sizes)
+        S.add('un COPY %d %d' % (r, a))
+        S.add('un COPY %d %d' % (back, r))
+        S.add('obs %d %d' % (a, r))
+        if rng.random() < 0.2:
+            S.add('asg %d %d' % (keep, a))
+    S.add('snap %d' % fs)
+    S.add('snap %d' % fd)
+    return S.text()
+
+
+@plan('C10')
+def plan_c10(tier, seed, rng):
+    scripts = []
+    n = 0
+    for shape_kinds, rel in ((['mtb_s', 'mti_s', 'mtr_s', 'evp_s'], False),
+                             (['mtb_r', 'mti_r', 'mtr_r', 'evp_r', 'evt_r'], True)):
+        pairs = [(s, d) for s in shape_kinds for d in shape_kinds]
+        for (src, dst) in pairs:
+            combos = [(a, b) for a in gen.rules_of(src) for b in gen.rules_of(dst)]
+            rng.shuffle(combos)
+            for (sr_, dr_) in (combos if tier == 'thorough' else combos[:2]):
+                sizes = rng.choice([[2], [3]] if rel else [[2, 2], [2, 3], [3, 2]])
+                if tier == 'thorough' and rng.random() < 0.5:
+                    sizes = gen.rand_sizes(rng, 16 if rel else 64, maxvars=(2 if rel else 4), maxsize=4)
+                npts = points_of(sizes, rel)
+                tables = []
+                if KINDS[src][1] == 'B' and npts <= 4:
+                    tables = [[(x >> i) & 1 for i in range(npts)] for x in range(1 << npts)]
+                else:
+                    for _ in range(24 if tier == 'thorough' else 10):
+                        tables.append(rand_table(rng, src, npts, COPY_PAL[src], p_default=rng.choice([0.2, 0.5, 0.8])))
+                    dv = gen.default_of(src)
+                    tables.append([dv] * npts)
+                    if KINDS[src][1] != 'B':
+                        tables.append([rng.choice(COPY_PAL[src])] * npts)
+                    else:
+                        tables.append([1] * npts)
+                scripts.append(('c%03d' % n, c10_script(rng, sizes, src, sr_, dst, dr_, tables)))
+                n += 1
+    return dict(
+        scripts=scripts, validators=[API], tags={'C10', 'HELD'},
+        rule='every ordered pair of forest kinds of the same shape (sets: MT boolean/integer/real, EV+; relations: those plus EV*), two distinct '
+             'forests even for equal kinds, source/target reduction rules drawn from all rules of the kind (all rule pairs in thorough); functions: all '
+             'boolean functions on the smallest shapes, seeded tables from a palette (negative, zero, positive, large, infinity) elsewhere, plus the '
+             'constant functions; each function is copied there and back (identity of the round trip is checked against the original edge when the '
+             'functions are equal); non-trivial = result table not constant',
+        exhaustive=False,
+    )
+
+
+# ---------------------------------------------------------------------------
+# C15: index sets
+# ---------------------------------------------------------------------------
+def c15_script(rng, sizes, rule, sets):
+    S = Script()
+    d = S.dom(sizes)
+    fs = S.forest(d, 'mtb_s', rule, sto=rng.choice('EFS'))
+    fx = S.forest(d, 'idx_s', 'F', sto=rng.choice('EFS'))
+    a, ix = S.new(fs), S.new(fx)
+    for T in sets:
+        table_coll(S, a, fs, 'mtb_s', T, sizes)
+        S.add('un TOINDEX %d %d' % (ix, a))
+        n = sum(T)
+        S.add('icard %d' % ix)
+        S.add('card %d' % ix)
+        for i in range(-1, n + 2):
+            S.add('elem %d %d' % (ix, i))
+        S.add('iter %d' % ix)
+    S.add('snap %d' % fx)
+    return S.text()
+
+
+@plan('C15')
+def plan_c15(tier, seed, rng):
+    scripts = []
+    n = 0
+    shapes = [[2, 2], [2, 3]] + ([[2, 2, 2], [3, 3]] if tier == 'thorough' else [])
+    for sizes in shapes:
+        npts = points_of(sizes, False)
+        allsets = [[(x >> i) & 1 for i in range(npts)] for x in range(1 << npts)]
+        for rule in ['F', 'Q']:
+            sets = allsets if (npts <= 6 or tier == 'thorough') else rng.sample(allsets, 48) + [allsets[0], allsets[-1]]
+            for i in range(0, len(sets), 64):
+                scripts.append(('i%03d' % n, c15_script(rng, sizes, rule, sets[i:i + 64])))
+                n += 1
+    for _ in range(8 if tier == 'thorough' else 3):
+        sizes = gen.rand_sizes(rng, 60, maxvars=4, maxsize=4)
+        npts = points_of(sizes, False)
+        sets = [rand_table(rng, 'mtb_s', npts) for _ in range(12)] + [[0] * npts, [1] * npts]
+        scripts.append(('r%03d' % n, c15_script(rng, sizes, rng.choice('FQ'), sets)))
+        n += 1
+    return dict(
+        scripts=scripts, validators=[API], tags={'C15'},
+        rule='every boolean set over <2,2> and <2,3> (thorough: also <2,2,2> and <3,3>; quick samples <2,3>) including the empty and the full set, in a '
+             'fully- and in a quasi-reduced source forest: CONVERT_TO_INDEX_SET evaluated at every point, getElement(i) for every i in -1..n+1, '
+             'getIndexSetCardinality of the root, CARDINALITY and iteration of the index set; plus seeded random sets on shapes up to 4 variables; '
+             'non-trivial = the set is neither empty nor full',
+        exhaustive=True,
+    )
+
+
+# ---------------------------------------------------------------------------
+# C11: enumeration and counting
+# ---------------------------------------------------------------------------
+def rand_mask(rng, sizes, rel):
+    K = len(sizes)
+    un = [rng.choice([-1, -1, rng.randrange(sizes[k])]) for k in range(K)]
+    if not rel:
+        return un
+    pr = [rng.choice([-1, -1, -2, rng.randrange(sizes[k])]) for k in range(K)]
+    return un + pr
+
+
+def c11_script(rng, sizes, kind, rule, tables, all_masks=False):
+    S = Script()
+    d = S.dom(sizes)
+    f = S.forest(d, kind, rule, sto=rng.choice('EFS'))
+    rel = KINDS[kind][0] == 'R'
+    a = S.new(f)
+    for T in tables:
+        table_coll(S, a, f, kind, T, sizes)
+        S.add('iter %d' % a)
+        S.add('card %d' % a)
+        if all_masks:
+            masks = list(gen.all_minterms(sizes, rel))
+        else:
+            masks = [rand_mask(rng, sizes, rel) for _ in range(4)]
+        for m in masks:
+            S.add('iter %d %s' % (a, ' '.join(map(str, m))))
+    S.add('iter %d deref' % a)
+    S.add('snap %d' % f)
+    return S.text()
+
+
+@plan('C11')
+def plan_c11(tier, seed, rng):
+    scripts = []
+    n = 0
+    for kind in [k for k in KINDS if k != 'idx_s']:
+        rel = KINDS[kind][0] == 'R'
+        for rule in gen.rules_of(kind):
+            # tiny shape, every mask
+            sizes = [2] if rel else [2, 2]
+            npts = points_of(sizes, rel)
+            pal = COPY_PAL.get(kind)
+            tables = [rand_table(rng, kind, npts, pal, p_default=rng.choice([0.3, 0.6])) for _ in range(10 if tier == 'thorough' else 4)]
+            tables += [[gen.default_of(kind)] * npts]
+            if KINDS[kind][1] == 'B':
+                tables += [[1] * npts]
+            scripts.append(('m%03d' % n, c11_script(rng, sizes, kind, rule, tables, all_masks=True)))
+            n += 1
+            for _ in range(4 if tier == 'thorough' else 1):
+                sizes = gen.rand_sizes(rng, 16 if rel else 100, maxvars=(2 if rel else 4), maxsize=4)
+                npts = points_of(sizes, rel)
+                tables = [rand_table(rng, kind, npts, pal, p_default=rng.choice([0.2, 0.5, 0.9])) for _ in range(12 if tier == 'thorough' else 6)]
+                scripts.append(('r%03d' % n, c11_script(rng, sizes, kind, rule, tables)))
+                n += 1
+    return dict(
+        scripts=scripts, validators=[API, STORE], tags={'C11'},
+        rule='per forest kind x reduction rule: seeded functions on the smallest shape with *every* mask (each position fixed / free / unchanged), '
+             'and on random shapes up to 4 variables with random masks; the recorded visit sequence (rank, value) must equal the specification\'s sequence '
+             'exactly (order, multiplicity, values); CARDINALITY as long / double / mpz; node and edge counts of every result against the reachable '
+             'sub-graph of the node snapshot (store-level validator); non-trivial = at least one assignment visited',
+        exhaustive=False,
+    )
+
+
+# ---------------------------------------------------------------------------
+# C09 / C08 / C20: relations
+# ---------------------------------------------------------------------------
+def dist_table(rng, kind, npts):
+    """initial distance function: some states at distance 0 (or small), the
+    rest unreachable (MT: negative, EV+: infinity)"""
+    un = INF if KINDS[kind][2] == 'EP' else rng.choice([-1, -1, -5])
+    p = rng.choice([0.15, 0.3, 0.6])
+    return [rng.choice([0, 0, 0, 1, 3, 40]) if rng.random() < p else un for _ in range(npts)]
+
+
+def rel_script(rng, sizes, skind, rules, rkind, rrule, cases, clear=False, same=False):
+    """skind: kind of the set operand and result (two distinct forests with
+    rules[0], rules[1], or one forest if same); rkind/rrule: relation forest.
+    cases: (S, R, [ops])"""
+    Sx = Script()
+    d = Sx.dom(sizes)
+    fa = Sx.forest(d, skind, rules[0])
+    fr = fa if same else Sx.forest(d, skind, rules[1])
+    fm = Sx.forest(d, rkind, rrule)
+    a, r, m = Sx.new(fa), Sx.new(fr), Sx.new(fm)
+    r2 = Sx.new(fr)
+    for (T, R, ops) in cases:
+        table_coll(Sx, a, fa, skind, T, sizes)
+        table_coll(Sx, m, fm, rkind, R, sizes)
+        for op in ops:
+            if op == 'MV_MULTIPLY':
+                Sx.add('bin %s %d %d %d' % (op, r, m, a))
+            else:
+                Sx.add('bin %s %d %d %d' % (op, r, a, m))
+        Sx.add('obs %d %d' % (a, m))
+        if clear:
+            Sx.add('clearall')
+    Sx.add('snap %d' % fr)
+    return Sx.text()
+
+
+def rand_relation(rng, sizes, kind='mtb_r', pal=None):
+    n = points_of(sizes, False)
+    npts = n * n
+    style = rng.choice(['sparse', 'dense', 'selfloops', 'identityish', 'deadends'])
+    dens = {'sparse': 0.08, 'dense': 0.4, 'selfloops': 0.12, 'identityish': 0.1, 'deadends': 0.15}[style]
+    v = lambda: 1 if pal is None else rng.choice(pal)
+    T = [v() if rng.random() < dens else 0 for _ in range(npts)]
+    return T
+
+
+@plan('C09')
+def plan_c09(tier, seed, rng):
+    scripts = []
+    n = 0
+    IMG = ['POST_IMAGE', 'PRE_IMAGE']
+    setups = []
+    for rr in ['I', 'F', 'Q']:
+        for sr in (['F', 'Q']):
+            setups.append(('mtb_s', (sr, rng.choice('FQ')), 'mtb_r', rr, IMG))
+        setups.append(('mti_s', (rng.choice('FQ'), 'F'), 'mtb_r', rr, IMG))
+        setups.append(('evp_s', (rng.choice('FQ'), rng.choice('FQ')), 'mtb_r', rr, IMG))
+        setups.append(('mti_s', (rng.choice('FQ'), rng.choice('FQ')), 'mti_r', rr, ['VM_MULTIPLY', 'MV_MULTIPLY']))
+        setups.append(('mtr_s', (rng.choice('FQ'), rng.choice('FQ')), 'mtr_r', rr, ['VM_MULTIPLY', 'MV_MULTIPLY']))
+    for (sk, rules, rk, rr, ops) in setups:
+        shapes = [[2], [3]] + ([[2, 2], [3, 2], [2, 3]] if tier == 'thorough' else [rng.choice([[2, 2], [3, 2], [2, 3], [2, 2, 2]])])
+        for sizes in shapes:
+            ns = points_of(sizes, False)
+            cases = []
+            reps = 40 if tier == 'thorough' else 16
+            if sizes == [2] and sk == 'mtb_s':
+                # exhaustive: every set x every relation
+                for s in range(4):
+                    for r in range(16):
+                        cases.append(([(s >> i) & 1 for i in range(2)], [(r >> i) & 1 for i in range(4)], ops))
+            else:
+                for _ in range(reps):
+                    if sk == 'mtb_s':
+                        T = rand_table(rng, sk, ns)
+                    elif 'MULTIPLY' in ops[0]:
+                        T = rand_table(rng, sk, ns, [-3, 1, 2, 5] if sk == 'mti_s' else [-128, 32, 64, 96], p_default=0.4)
+                    else:
+                        T = dist_table(rng, sk, ns)
+                    if rk == 'mtb_r':
+                        R = rand_relation(rng, sizes)
+                    else:
+                        R = rand_relation(rng, sizes, rk, [-2, 1, 3, 4] if rk == 'mti_r' else [-64, 32, 64, 192])
+                    cases.append((T, R, ops))
+            scripts.append(('g%03d' % n, rel_script(rng, sizes, sk, rules, rk, rr, cases, clear=(n % 3 == 0))))
+            n += 1
+    return dict(
+        scripts=scripts, validators=[API], tags={'C09', 'HELD'},
+        rule='POST_IMAGE / PRE_IMAGE for boolean sets (every set x every relation over <2>; seeded pairs over <3>, <2,2>, <3,2>, <2,3>, <2,2,2>), '
+             'MT-integer distance functions (result forest fully reduced) and EV+ distance functions, relation forests identity-, fully- and quasi-reduced; '
+             'VM_MULTIPLY / MV_MULTIPLY for integer and (dyadic) real vectors and matrices; relation families: sparse, dense, self-loops, dead ends; '
+             'operands re-read after every call; non-trivial = result not constant',
+        exhaustive=False,
+    )
+
+
+REACH = ['REACH_FS_F', 'REACH_FS_B', 'REACH_NOFS_F', 'REACH_NOFS_B', 'REACH_SAT_F', 'REACH_SAT_B']
+
+
+@plan('C08')
+def plan_c08(tier, seed, rng):
+    scripts = []
+    n = 0
+    setups = []
+    DOPS = ['REACH_NOFS_F', 'REACH_NOFS_B', 'REACH_SAT_F', 'REACH_SAT_B']
+    for rr in ['I', 'F', 'Q']:
+        for same in (True, False):
+            setups.append(('mtb_s', ('F', 'F'), rr, REACH, same))
+            setups.append(('mtb_s', ('Q', rng.choice('FQ')), rr, REACH, same))
+            setups.append(('mti_s', ('F', 'F'), rr, DOPS, same))
+            setups.append(('evp_s', (rng.choice('FQ'), rng.choice('FQ')), rr, DOPS, same))
+        setups.append(('mti_s', ('Q', 'F'), rr, DOPS, False))
+    for (sk, rules, rr, ops, same) in setups:
+        shapes = [[2], [3]] + ([[2, 2], [3, 2], [2, 2, 2]] if tier == 'thorough' else [rng.choice([[2, 2], [3, 2], [2, 3]])])
+        for sizes in shapes:
+            ns = points_of(sizes, False)
+            cases = []
+            if sizes == [2] and sk == 'mtb_s':
+                for s in range(4):
+                    for r in range(16):
+                        cases.append(([(s >> i) & 1 for i in range(2)], [(r >> i) & 1 for i in range(4)], ops))
+            else:
+                for _ in range(30 if tier == 'thorough' else 10):
+                    T = rand_table(rng, sk, ns) if sk == 'mtb_s' else dist_table(rng, sk, ns)
+                    cases.append((T, rand_relation(rng, sizes), ops))
+            # sequences of calls on different relations in the same forests,
+            # nothing cleared in between (the relation split cached in the
+            # saturation operation is reused across calls)
+            scripts.append(('q%03d' % n, rel_script(rng, sizes, sk, rules, 'mtb_r', rr, cases, clear=False, same=same)))
+            n += 1
+    return dict(
+        scripts=scripts, validators=[API], tags={'C08', 'HELD'},
+        rule='REACHABLE_TRAD_FS / TRAD_NOFS / SATUR, forward and backward: every initial set x every relation over <2>; seeded (set, relation) pairs over '
+             '<3>, <2,2>, <3,2>, <2,3>, <2,2,2> with relation families sparse / dense / self-loops / dead ends; boolean sets, MT-integer distance and EV+ '
+             'distance functions (NOFS and SATUR); relation forests identity-, fully- and quasi-reduced; calls are issued in sequence in the same forests '
+             'with nothing cleared in between; all algorithms on one (set, relation) write into the same result forest so that their results are compared '
+             'for identity (C01 tag) as well as with the least fixed point computed by TLC; non-trivial = result not constant',
+        exhaustive=False,
+    )
+
+
+def c20_script(rng, sizes, rules, rrule, cases):
+    """cases: (init table, [event tables], mode, split)"""
+    S = Script()
+    d = S.dom(sizes)
+    fa = S.forest(d, 'mtb_s', rules[0])
+    fr = S.forest(d, 'mtb_s', rules[1])
+    fm = S.forest(d, 'mtb_r', rrule)
+    a, r, r2 = S.new(fa), S.new(fr), S.new(fr)
+    union = S.new(fm)
+    evs = [S.new(fm) for _ in range(6)]
+    for (T, events, mode, split) in cases:
+        table_coll(S, a, fa, 'mtb_s', T, sizes)
+        for i, E in enumerate(events):
+            table_coll(S, evs[i], fm, 'mtb_r', E, sizes)
+        S.add('sat %d %d %s %d %d %s' % (r, a, mode, split, len(events), ' '.join(str(evs[i]) for i in range(len(events)))))
+        # monolithic reachability on the union relation, into the same forest
+        S.add('asg %d %d' % (union, evs[0]))
+        for i in range(1, len(events)):
+            S.add('bin UNION %d %d %d' % (union, union, evs[i]))
+        S.add('bin REACH_NOFS_F %d %d %d' % (r2, a, union))
+        S.add('obs %d' % a)
+    return S.text()
+
+
+def rand_event(rng, sizes):
+    """an event: touches a subset of the variables; on the others it is the
+    identity (don't change) - built as a table"""
+    K = len(sizes)
+    n = points_of(sizes, False)
+    touched = [k for k in range(K) if rng.random() < 0.6] or [rng.randrange(K)]
+    # local transitions per touched variable
+    local = {}
+    for k in touched:
+        s = sizes[k]
+        local[k] = [(i, j) for i in range(s) for j in range(s) if rng.random() < 0.35] or [(0, s - 1)]
+    T = [0] * (n * n)
+    # enumerate pairs (x, y)
+    import itertools
+    for x in itertools.product(*[range(s) for s in sizes]):
+        for y in itertools.product(*[range(s) for s in sizes]):
+            ok = True
+            for k in range(K):
+                if k in local:
+                    if (x[k], y[k]) not in local[k]:
+                        ok = False
+                        break
+                elif x[k] != y[k]:
+                    ok = False
+                    break
+            if ok:
+                # rank: level K most significant, digits x_K x'_K ... x_1 x'_1
+                r = 0
+                for k in range(K - 1, -1, -1):
+                    r = (r * sizes[k] + x[k]) * sizes[k] + y[k]
+                T[r] = 1
+    return T
+
+
+@plan('C20')
+def plan_c20(tier, seed, rng):
+    scripts = []
+    n = 0
+    shapes = [[2, 2], [3, 2]] + ([[2, 2, 2], [2, 3, 2]] if tier == 'thorough' else [])
+    for sizes in shapes:
+        ns = points_of(sizes, False)
+        for rrule in ['I', 'F', 'Q']:
+            for mode in ['BYEV', 'BYLV']:
+                for split in (range(5) if mode == 'BYLV' else [0]):
+                    cases = []
+                    for _ in range(12 if tier == 'thorough' else 5):
+                        nev = rng.randint(1, 4)
+                        events = [rand_event(rng, sizes) for _ in range(nev)]
+                        if rng.random() < 0.2:
+                            events[rng.randrange(nev)] = [0] * (ns * ns)        # an empty event
+                        T = rand_table(rng, 'mtb_s', ns)
+                        cases.append((T, events, mode, split))
+                    scripts.append(('e%03d' % n, c20_script(rng, sizes, (rng.choice('FQ'), rng.choice('FQ')), rrule, cases)))
+                    n += 1
+    return dict(
+        scripts=scripts, validators=[API], tags={'C20', 'HELD'},
+        rule='lists of 1..4 event relations over <2,2>, <3,2> (thorough: <2,2,2>, <2,3,2>): each event changes a random subset of the variables by random '
+             'local transitions and leaves the others unchanged (overlapping and disjoint supports, self-loops, events whose top variable is unchanged, '
+             'empty events); random initial sets; pregen_relation by events and by levels with each of the five splitting options; relation forests '
+             'identity-, fully- and quasi-reduced; SATURATION_FORWARD must equal the least fixed point TLC computes for the union relation and be the '
+             'identical edge to REACHABLE_TRAD_NOFS on the union relation computed into the same forest; non-trivial = result not constant',
+        exhaustive=False,
     )
